@@ -491,6 +491,80 @@ example :
   intro W
   exact ⟨rfl, rfl, rfl, rfl, rfl⟩
 
+/-! ## 6b. more of `Func::run`: OnComposition, Composition, splat holes, error cases -/
+
+/-- `Func::OnComposition(f, g)`: every argument goes through `g.run1`, in order, first failure wins -/
+theorem run_onComposition (W : World) (f g : Func) (args : List Val) :
+    (Func.onComposition f g).run W args = (seqOut (args.map (g.run1 W))).bind (f.run W) := by
+  have h : args.map (run1Of W g (Func.run W g)) = args.map (g.run1 W) := by
+    apply List.map_congr_left; intro a _; exact run1Of_eq W g a
+  simp only [Func.run, h]
+  cases seqOut (args.map (g.run1 W)) <;> rfl
+
+/-- `(f on g)(a, b) = f(g(a), g(b))` when both inner calls succeed -/
+theorem on_two (W : World) (f g : Func) (a b x y : Val)
+    (ha : g.run W [a] = .ok x) (hb : g.run W [b] = .ok y) :
+    (Func.onComposition f g).run W [a, b] = f.run W [x, y] := by
+  rw [run_onComposition]
+  simp [seqOut, ← func_run_one, ha, hb, Out.map]
+
+/-- `(f <<< g)(a, b) = f(g(a, b))` -/
+theorem compose_two (W : World) (f g : Func) (a b r : Val) (h : g.run W [a, b] = .ok r) :
+    (Func.composition f g).run W [a, b] = f.run W [r] := by
+  rw [run_composition, h, bind_ok, func_run_one]
+
+/-- a splat underscore takes one argument and splices its elements -/
+theorem applySection_splat_hole (W : World) (pre post xs : List Val) :
+    applySection W (pre.map .val ++ [.hole true] ++ post.map .val) [.list xs] = .ok (pre ++ xs ++ post) := by
+  induction pre with
+  | nil => simp [applySection, applySection_vals, iterVal]
+  | cons p pre ih =>
+    simp only [List.map_cons, List.cons_append, applySection]
+    simp only [List.append_assoc, List.singleton_append] at ih ⊢
+    simp [ih]
+
+/-- `call_or_part_apply` on a non-function callee: exactly one function argument gives the left
+section `PartialApp1(f, a)`; anything else is an error -/
+theorem callOrPartApply_nonfunc (W : World) (a : Val) (ha : a.isFunc = false) :
+    (∀ f, callOrPartApply W a [.func f] = .ok (.func (.partialApp1 f a))) ∧
+    (∀ x, x.isFunc = false → callOrPartApply W a [x] = .throw) ∧
+    (∀ args, args.length ≠ 1 → callOrPartApply W a args = .throw) := by
+  refine ⟨?_, ?_, ?_⟩
+  · intro f; cases a <;> simp_all [callOrPartApply, few, Val.isFunc]
+  · intro x hx; cases a <;> cases x <;> simp_all [callOrPartApply, few, Val.isFunc]
+  · intro args hl
+    match args, hl with
+    | [], _ => cases a <;> simp_all [callOrPartApply, few, Val.isFunc]
+    | _ :: _ :: _, _ => cases a <;> simp_all [callOrPartApply, few, Val.isFunc]
+
+/-- a chain section with one operator needs exactly as many arguments as it has underscores -/
+theorem chainSection1_arity (W : World) (op : Func) (a b : Val) :
+    (Func.chainSection1 none op (some b)).run W [] = .throw ∧
+    (Func.chainSection1 none op (some b)).run W [a, a] = .throw ∧
+    (Func.chainSection1 (some a) op none).run W [] = .throw ∧
+    (Func.chainSection1 none op none).run W [a] = .throw := by
+  simp [Func.run]
+
+/-- every partial-application value a builtin family builds by itself wraps the builtin itself and
+the given argument — never another function, never another argument -/
+theorem family_builds_own_wrapper (F : Family) (B : Bodies) (self : Func) (a : Val)
+    (h : (F.partArm a).isSome) :
+    F.run B self [a] = .ok (.func (.partialApp2 self a)) ∨ F.run B self [a] = .ok (.func (.partialAppLast self a)) := by
+  have hs := partArm_spec F B self a
+  cases hp : F.partArm a with
+  | none => simp [hp] at h
+  | some l => cases l with
+    | false => exact .inl (hs.1 hp)
+    | true => exact .inr (hs.2 hp)
+
+/-- nested sections: a section of a section is still the plain call (instance of `forms_agree`
+at a composite callable) — `f(_, b)` used infix -/
+example (W : World) (f : Func) (b x : Val) :
+    evalForm W .infixOp (.callSection (.func f) [.hole false, .val b]) [x, x] =
+      app W (.callSection (.func f) [.hole false, .val b]) [x, x] :=
+  (infix_agrees W _ x x).1
+
+
 /-! ## 7. every registered builtin belongs to a family proved coherent (generated table) -/
 
 /-- the check run over the table regenerated from /repo/src/lib.rs on every `./check C04` -/
